@@ -11,6 +11,9 @@ writer of a cell can be identified on the grid.  Scenarios mixed in: a window wi
 behind it (parent or lower sibling) ruling lines through the border's rows and columns; a short text at the start of a row and
 the rest of the row pulled a few columns left over its end (the copy overwrites the start of the run it walks), then more
 drawing; a label under savepen / restore followed by a clear of everything.
+Texts are also drawn with tickit_renderbuffer_textf_at (format "%*s": formatted results below and from 64 bytes on, clipped to
+small windows), in the same flush as line segments and single characters of any window.  The terminal is resized in every
+configuration, the mock terminal by tickit_mockterm_resize (landscape shapes, wider / narrower / taller / shorter).
 One history in twenty runs on the library's xterm driver (scroll oracle x; bytes interpreted by the VT model in the driver):
 1-4 lines of 65-140 columns, windows exactly 64 / 128 columns wide or starting at column 64 / 128, reverse-video pens, handlers
 that blank whole windows (the driver writes reverse-video blanks as spaces in slices of 64); the background colour is the
@@ -254,6 +257,20 @@ def pull_left_instrs(h, w):
     return ["T:%d:0:%s" % (r, hexs(txt)), "%s:%d:%d:%d:%d:1:%d" % (rng.choice(["Y", "Y", "M"]), r, c0 - d, at + r, al + c0, width)]
 
 
+def textf_instr(h, w, long_only=False):
+    """tickit_renderbuffer_textf_at(rb, l, c, "%*s", pad, text): formatted results below and from 64 bytes on (the second path of
+    put_vtextf goes through the buffer's scratch area), clipped to windows that are much smaller."""
+    n, k = h.rect[w][2], h.rect[w][3]
+    txt = rand_text(rng.choice([64, 70, 100, 150] if long_only else [1, 5, 20, 40, 63, 64, 70, 100]))
+    nbytes = len(txt.encode("utf-8"))
+    pad = rng.choice([0, 0, 0, nbytes + rng.randint(1, 4), 64, 80])
+    stats["textf_instrs"] = stats.get("textf_instrs", 0) + 1
+    if max(nbytes, pad) >= 64: stats["textf_long"] = stats.get("textf_long", 0) + 1
+    if rng.random() < 0.7:
+        return "F:%d:%d:%d:%s" % (rng.randint(-1, n), rng.choice([0, 0, rng.randint(-6, k + 2), -pad]), pad, hexs(txt))
+    return "f:%d:%d:%d:%s" % (rng.randint(-1, 2), rng.randint(-4, 2), pad, hexs(txt))
+
+
 def adversarial_prog(h, w):
     n, k = h.rect[w][2], h.rect[w][3]
     ins = []
@@ -274,7 +291,9 @@ def adversarial_prog(h, w):
             ins.append("e:%d:%d:%d:%d" % (rng.randint(-2, 1), rng.randint(-2, 1), rng.randint(-1, 3), rng.randint(-1, 3)))
         elif x < 0.52:
             txt = rand_text(rng.choice([1, 2, 5, 12, 40]))
-            if rng.random() < 0.5:
+            if rng.random() < 0.3:
+                ins.append(textf_instr(h, w))
+            elif rng.random() < 0.5:
                 ins.append("T:%d:%d:%s" % (rng.randint(-2, n + 1), rng.randint(-6, k + 2), hexs(txt)))
             else:
                 ins.append("t:%d:%d:%s" % (rng.randint(-1, 2), rng.randint(-4, 2), hexs(txt)))
@@ -434,6 +453,18 @@ def history(h_index, big):
         behind = [h.parent[v]] + [i for i in h.live() if i != v and i != 0 and h.parent.get(i) == h.parent[v]]
         u = rng.choice(behind)
         emit("beh %d %s" % (u, ruled_prog(h, u)))
+    if C02 and nwin and rng.random() < 0.12:
+        # a label drawn with a long formatted string (clipped to its window) and, in the same flush, line segments and
+        # single characters of this and other windows
+        v = rng.choice(h.live())
+        emit("beh %d %s" % (v, " ".join([rng.choice(["P", "K", "E:0:0:%d:%d" % (h.rect[v][2], h.rect[v][3])]), textf_instr(h, v, True)] +
+                                        ([line_instr(h, v)] if rng.random() < 0.4 else []))))
+        u = rng.choice(h.live())
+        if u != v:
+            nn, kk = h.rect[u][2], h.rect[u][3]
+            emit("beh %d %s" % (u, boxed_prog(h, u) if rng.random() < 0.5 else
+                                "P C:%d:%d:%d %s" % (rng.randint(0, max(0, nn - 1)), rng.randint(0, max(0, kk - 1)), rng.randint(97, 122), line_instr(h, u))))
+        stats["textf_scenes"] = stats.get("textf_scenes", 0) + 1
     emit("flush"); stats["flushes"] += 1
     nops = rng.randint(2, 8) if XM else rng.randint(3, 26 if big else 18)
     for _ in range(nops):
@@ -512,8 +543,10 @@ def history(h_index, big):
             sub = h.descendants(w)
             emit("close %d" % w)
             h.dead.update(sub)
-        elif x < 0.96 and mode != "m":
+        elif x < 0.96:
+            # (on the mock terminal: tickit_mockterm_resize)
             nl = max(1, tl + rng.choice([-3, -2, -1, 0, 1, 2, 3])); nc = max(1, tc + rng.choice([-7, -3, -1, 0, 1, 2, 5]))
+            if mode == "m": stats["mock_resizes"] = stats.get("mock_resizes", 0) + 1; stats["mock_widened"] = stats.get("mock_widened", 0) + (nc > tc)
             if XM: nl = min(nl, 5)
             if C02 and "root_shrink" in UNFIXED and (nl < tl or nc < tc):
                 emit("flush"); stats["flushes"] += 1; h.pending.clear()    # (inert: repaired) no damage pending across a shrink
@@ -559,7 +592,7 @@ if a.tier == "exhaustive":
                     dirty = True
                     if o.startswith("scroll 2") and small and "scroll_unclipped" in UNFIXED: bad = True
             if bad: continue
-            for mode in (["a"] if k == 4 else ["a", "p", "r"]):
+            for mode in (["a"] if k == 4 else ["a", "p", "r"] + (["m"] if k <= 2 else [])):
                 emit("new %s 4 8 %s %s" % (a.prop, mode, "pen=1:0:x"))
                 emit("win 1 0 1 1 2 4 - pen=2:1:x")
                 emit("win 2 0 0 3 3 4 - pen=3:2:1")
@@ -571,7 +604,7 @@ if a.tier == "exhaustive":
                 for o in ops: emit(o)
                 emit("flush")
                 nh += 1
-    info = {"exhaustive_bound": "every history of <= 4 operations from an 18-letter alphabet (hide/show/restack/move/expose/scroll/scrollrect/scroll_with_children+children moved/close/terminal-resize/flush) on a fixed tree of 3 overlapping windows, all three scroll oracles for length <= 3", "histories": nh}
+    info = {"exhaustive_bound": "every history of <= 4 operations from an 18-letter alphabet (hide/show/restack/move/expose/scroll/scrollrect/scroll_with_children+children moved/close/terminal-resize/flush) on a fixed tree of 3 overlapping windows, all three scroll oracles for length <= 3, the mock terminal (terminal-resize = tickit_mockterm_resize) for length <= 2", "histories": nh}
 else:
     H = 5000 if a.tier == "quick" else 40000
     for i in range(H):
